@@ -142,6 +142,64 @@ def assign_shapes(rng, t, k, lens=(0, 1, 2, 2, 3, 3), p_consistent=0.85, allow_n
     return [s if s is not None else [1] for s in shapes]
 
 
+# ---------------------------------------------------------------- variants of a tree over the same fields (for sequences of
+# submissions into one cache: neighbours that differ in a bracket type, re-bracketings that are / are not equivalent)
+def _paths(t, pred, path=()):
+    out = [path] if pred(t) else []
+    if t[0] != "F":
+        for i, c in enumerate(t[1]):
+            out += _paths(c, pred, path + (i,))
+    return out
+
+
+def _rewrite(t, path, f):
+    if not path:
+        return f(t)
+    kids = list(t[1])
+    kids[path[0]] = _rewrite(kids[path[0]], path[1:], f)
+    return (t[0], kids)
+
+
+def flip_node(rng, t):
+    """inner <-> outer at one node with >= 2 operands (nested nodes preferred); None if there is none"""
+    ps = _paths(t, lambda x: x[0] != "F" and len(x[1]) >= 2)
+    if not ps:
+        return None
+    nested = [p for p in ps if p]
+    path = rng.choice(nested if nested and rng.random() < 0.8 else ps)
+    return _rewrite(t, path, lambda x: ("I" if x[0] == "O" else "O", x[1]))
+
+
+def merge_nested(rng, t):
+    """splice the operands of a nested list/tuple into its parent, whatever the two bracket types are (equivalent only
+    when they are the same type); None if no node has a nested operand"""
+    ps = _paths(t, lambda x: x[0] != "F" and any(c[0] != "F" for c in x[1]))
+    if not ps:
+        return None
+
+    def merge(x):
+        kids = list(x[1])
+        idx = rng.choice([i for i, c in enumerate(kids) if c[0] != "F"])
+        return (x[0], kids[:idx] + list(kids[idx][1]) + kids[idx + 1:])
+    return _rewrite(t, rng.choice(ps), merge)
+
+
+def regroup(rng, t):
+    """an equivalent spelling: wrap a node in a one-element list/tuple, or group a run of operands of a node into a nested
+    node of the same type"""
+    ps = _paths(t, lambda x: True)
+    path = rng.choice(ps)
+
+    def f(x):
+        if x[0] != "F" and len(x[1]) >= 3 and rng.random() < 0.7:
+            i = rng.randrange(len(x[1]) - 1)
+            j = rng.randrange(i + 2, len(x[1]) + 1)
+            if j - i < len(x[1]):
+                return (x[0], x[1][:i] + [(x[0], x[1][i:j])] + x[1][j:])
+        return (rng.choice("OI"), [x])
+    return _rewrite(t, path, f)
+
+
 # ---------------------------------------------------------------- reference expansion (used for statistics and
 # for the end-to-end value check only; the verdicts come from Coq)
 def nprod(sh):
@@ -283,15 +341,16 @@ def tag_task():
 CONST = [-1, -2, -3, -4, -5, -6, -7]
 
 
-def run_e2e(t, shapes, combiner=None, tmp_root=None):
+def run_e2e(t, shapes, combiner=None, tmp_root=None, cache_root=None):
     """Task.split(...)[.combine(...)] through Submitter(worker="debug").
-    Returns dict(obs=..., out=raw output or None, bodies=int, const_ok=bool, exc=..., leftover=[dir names])."""
+    Returns dict(obs=..., out=raw output or None, bodies=int, const_ok=bool, exc=..., leftover=[dir names]).
+    cache_root: an existing directory to use (and keep) as the cache root, so that several submissions share it."""
     from pydra.engine.submitter import Submitter
     Tag = tag_task()
     fs = sorted(leaves(t))
     ndim = {FIELDS[f]: len(shapes[f]) for f in fs if len(shapes[f]) > 1}
     vals = {FIELDS[f]: make_value(f, shapes[f]) for f in fs}
-    tmp = tempfile.mkdtemp(prefix="verif_state_", dir=tmp_root)
+    tmp = cache_root or tempfile.mkdtemp(prefix="verif_state_", dir=tmp_root)
     fd, body_log = tempfile.mkstemp(prefix="verif_bodies_", dir=tmp_root)
     os.close(fd)
     os.environ["VERIF_BODY_LOG"] = body_log
@@ -334,7 +393,8 @@ def run_e2e(t, shapes, combiner=None, tmp_root=None):
         return res
     finally:
         os.environ.pop("VERIF_BODY_LOG", None)
-        shutil.rmtree(tmp, ignore_errors=True)
+        if cache_root is None:
+            shutil.rmtree(tmp, ignore_errors=True)
         try:
             os.unlink(body_log)
         except OSError:
